@@ -42,8 +42,12 @@ def run(cx, chk):
                      ("C05.R1i", "constructor-agreement invariants of Bloom / CountMinSketch that the index discharges rely on"),
                      ("C05.R2", "validation present, NaN-rejecting, and error paths report the matching variant with the offending value"),
                      ("C05.R3", "sibling constructors return the same error variants"),
-                     ("C05.R4", "cross-configuration agreement of the ledger for functions compiled in both builds")):
+                     ("C05.R4", "cross-configuration agreement of the ledger for functions compiled in both builds"),
+                     ("C05.R5", "what finalize validates is what the caller configured: no builder method replaces a field it was not asked to set (engine of C01.R8)")):
         chk.rule(rid, txt)
+    from .lib import composite as _composite
+    for cfg, F in cx.cfgs():
+        _composite.builder_setters(cx, chk, cfg, F, "C05.R5")
     residual = json.load(open(RESIDUAL))["sites"] if os.path.exists(RESIDUAL) else {}
     used_res = set()
     per_cfg = {}
